@@ -772,15 +772,26 @@ impl Transaction {
             if let Some(versions) = self.purges.get(&id) {
                 self.store.remove_versions(versions).await?;
             }
-            self.write(
-                id,
-                staged.row,
-                version,
-                staged.op,
-                staged.is_new,
-                staged.keep_origin,
-            )
-            .await?;
+            if let Err(err) = self
+                .write(
+                    id,
+                    staged.row,
+                    version,
+                    staged.op,
+                    staged.is_new,
+                    staged.keep_origin,
+                )
+                .await
+            {
+                // The first write failed with nothing committed. Like a
+                // refused pre-write check, this consumes the transaction, so
+                // the shells are removed here or they stay readable in the
+                // `pending` state until the next open.
+                if written == 0 {
+                    self.discard_shells().await;
+                }
+                return Err(err);
+            }
             changes.push(change_record(id, staged.op, version));
             written += 1;
         }
